@@ -80,12 +80,18 @@ def run_fragment(body: Sequence[ast.stmt], names: Dict[str, Any], attrs: Optiona
                 env[st.target.id] = fold(ast.BinOp(left=ast.Name(id=st.target.id, ctx=ast.Load()), op=st.op, right=st.value))
             elif isinstance(st, ast.For):
                 it = st.iter
-                if not (isinstance(it, ast.Call) and isinstance(it.func, ast.Name) and it.func.id == "range" and isinstance(st.target, ast.Name)):
-                    raise Unfoldable("loop is not `for v in range(..)`")
-                args = [fold(a) for a in it.args]
-                if not all(isinstance(a, int) and not isinstance(a, bool) for a in args):
-                    raise Unfoldable("range bounds")
-                for i in range(*args):
+                if not isinstance(st.target, ast.Name):
+                    raise Unfoldable("loop target is not a name")
+                if isinstance(it, ast.Call) and isinstance(it.func, ast.Name) and it.func.id == "range":
+                    args = [fold(a) for a in it.args]
+                    if not all(isinstance(a, int) and not isinstance(a, bool) for a in args):
+                        raise Unfoldable("range bounds")
+                    seq = range(*args)
+                else:
+                    seq = fold(it)
+                    if not isinstance(seq, (list, str)):
+                        raise Unfoldable("loop is not over a range, a list or a string")
+                for i in seq:
                     env[st.target.id] = i
                     try:
                         run(st.body)
